@@ -34,6 +34,8 @@ pub fn ctx_vs_crash(c: &Ctx, cs: &CrashSpec) -> Vec<String> {
         ("cs", c.cs as u64, (g[REG_CSGSFS] as u64) & 0xffff),
         ("gs", c.gs as u64, ((g[REG_CSGSFS] as u64) >> 16) & 0xffff),
         ("fs", c.fs as u64, ((g[REG_CSGSFS] as u64) >> 32) & 0xffff),
+        // the kernel keeps ss in the top 16 bits of the same slot (struct sigcontext: cs, gs, fs, ss)
+        ("ss", c.ss as u64, ((g[REG_CSGSFS] as u64) >> 48) & 0xffff),
     ];
     for (n, got, w) in want {
         if got != w {
